@@ -468,6 +468,11 @@ func (x *Exec) static(st *State, fn *ssa.Function, c *ssa.CallCommon, args []SVa
 		x.run(st, fn, args, nil, k)
 		return
 	}
+	if spec != nil && spec.Unsupported != "" {
+		x.unsupp(st, "%s", spec.Unsupported)
+		k(st, Exit{Kind: ExitStop})
+		return
+	}
 	sig := fn.Signature
 	short := fn.Name()
 	if fn.Signature.Recv() != nil {
